@@ -56,6 +56,12 @@ def handle : R String := do
     match Cli.parseInit s with
     | some l => pure s!"ok {wList wPair l}"
     | none => pure "none"
+  | "sigenv" => do
+    -- Spec placement: the symbol environment at the end of the program
+    let st ← csettings
+    let ops ← list sop
+    let tab := Sig.envAt ops st ops.length
+    pure (String.intercalate " " (toString tab.length :: tab.map (fun kv => s!"{wVal kv.1} {wSymVal kv.2}")))
   | "sigprog" => do
     let st ← csettings
     let ops ← list sop
